@@ -4,54 +4,18 @@
 From ZC Require Import Model.StakePool Proof.StakePool.
 Open Scope Z_scope.
 
-(* ---- the full statement, and why it is false of the code as it is ---- *)
-
 Definition C10_ratio_in_unit (r : f64) : Prop := sp_ratio_in_unit r.
 
-(* "service charge + delegate increments = paid amount", for the float64 code of the Go
-   implementation, any well-formed pool whose rewards still fit in uint64, any ratio in [0,1] *)
-Definition C10_full_statement : Prop :=
-  forall sp value sp' total,
-    sp_wf sp -> 0 <= value -> sp_total_rewards sp + value < sp_max ->
-    C10_ratio_in_unit (ss_charge (sp_set sp)) ->
-    sp_stake sp = Some total -> value <> 0 -> sp_killed sp = false -> ss_minstake (sp_set sp) <= total ->
-    sp_distribute sp_chargef_go sp_sharef_go sp value = SpOk sp' ->
-    sp_total_rewards sp' = sp_total_rewards sp + value.
-
-(* F-10a: ratio 1, value 2^53+3: float64(value) = 2^53+4, the charge exceeds the value,
-   value - charge wraps and 2^64 + value is credited; the deferred assertion passes mod 2^64 *)
-Theorem C10_charge_wrap_refuted : ~ C10_full_statement.
-Proof. exact sp_full_statement_refuted. Qed.
-Print Assumptions C10_charge_wrap_refuted.
-
-(* the same for the random-N variant; here a second trigger exists: when the selected pools
-   have no stake only the service charge is credited and the function still succeeds *)
-Definition C10_randn_full_statement : Prop :=
-  forall sp value n draws sp' total,
-    sp_wf sp -> 0 <= value -> sp_total_rewards sp + value < sp_max ->
-    C10_ratio_in_unit (ss_charge (sp_set sp)) ->
-    NoDup (sp_selection n draws (length (sp_pools sp))) ->
-    Forall (fun i => (i < length (sp_pools sp))%nat) (sp_selection n draws (length (sp_pools sp))) ->
-    sp_stake sp = Some total -> value <> 0 -> sp_killed sp = false -> ss_minstake (sp_set sp) <= total ->
-    sp_distribute_randn sp_chargef_go sp_sharef_go sp value n draws = SpOk sp' ->
-    sp_total_rewards sp' = sp_total_rewards sp + value.
-
-Theorem C10_randn_zero_stake_refuted : ~ C10_randn_full_statement.
-Proof. exact sp_randn_full_statement_refuted. Qed.
-Print Assumptions C10_randn_zero_stake_refuted.
-
-(* ---- what holds: exact split outside exactly these triggers, for EVERY float rounding ---- *)
-
-(* DistributeRewards: for arbitrary results of the two float computations ([chargef], [sharef]),
-   provided the charge does not exceed the value: never panics; a killed / under-staked provider
-   or a zero value changes nothing; otherwise provider increment + delegate increments = value,
-   only rewards change (sp_cred), and no reward decreases. *)
-Theorem C10_distribute_exact_partial :
+(* DistributeRewards, for arbitrary non-negative results of the two float computations
+   ([chargef], [sharef]): never panics; a killed / under-staked provider or a zero value changes
+   nothing; otherwise provider increment + delegate increments = value exactly, only rewards
+   change (sp_cred) and no reward decreases. *)
+Theorem C10_distribute_exact :
   forall (chargef : f64 -> Z -> option Z) (sharef : Z -> Z -> Z -> option Z),
   (forall a b c r, sharef a b c = Some r -> 0 <= r) ->
   forall sp value,
   sp_wf sp -> 0 <= value -> sp_total_rewards sp + value < sp_max ->
-  (forall c, chargef (ss_charge (sp_set sp)) value = Some c -> 0 <= c <= value) ->
+  (forall c, chargef (ss_charge (sp_set sp)) value = Some c -> 0 <= c) ->
   sp_distribute chargef sharef sp value <> SpPanic /\
   forall sp', sp_distribute chargef sharef sp value = SpOk sp' ->
     exists total, sp_stake sp = Some total /\
@@ -61,13 +25,13 @@ Theorem C10_distribute_exact_partial :
            (exists e, sp_cred (sp_pools sp) e (sp_pools sp')) /\
            sp_set sp' = sp_set sp /\ sp_killed sp' = sp_killed sp.
 Proof. exact sp_distribute_exact. Qed.
-Print Assumptions C10_distribute_exact_partial.
+Print Assumptions C10_distribute_exact.
 
-(* the same with the concrete Go floats: the only remaining hypothesis is charge <= value *)
-Theorem C10_distribute_exact_go_partial :
+(* the same for the float64 code of the Go implementation: no hypothesis about floats remains
+   (any ratio, any value; the former F-10a trigger ratio 1, value 2^53+3 included) *)
+Theorem C10_distribute_exact_go :
   forall sp value,
   sp_wf sp -> 0 <= value -> sp_total_rewards sp + value < sp_max ->
-  (forall c, sp_chargef_go (ss_charge (sp_set sp)) value = Some c -> c <= value) ->
   sp_distribute sp_chargef_go sp_sharef_go sp value <> SpPanic /\
   forall sp', sp_distribute sp_chargef_go sp_sharef_go sp value = SpOk sp' ->
     exists total, sp_stake sp = Some total /\
@@ -77,17 +41,16 @@ Theorem C10_distribute_exact_go_partial :
            (exists e, sp_cred (sp_pools sp) e (sp_pools sp')) /\
            sp_set sp' = sp_set sp /\ sp_killed sp' = sp_killed sp.
 Proof. exact sp_distribute_exact_go. Qed.
-Print Assumptions C10_distribute_exact_go_partial.
+Print Assumptions C10_distribute_exact_go.
 
-(* DistributeRewardsRandN: pools outside the selection (at most N of them are selected) keep
-   their reward; the total is exact, except that when the selected pools hold no stake only the
-   service charge is credited (less than value, nothing created). *)
-Theorem C10_randn_exact_partial :
+(* DistributeRewardsRandN: pools outside the selection (at most N are selected) keep their
+   reward and the total is exact (without selected stake the remainder goes to the provider). *)
+Theorem C10_randn_exact :
   forall (chargef : f64 -> Z -> option Z) (sharef : Z -> Z -> Z -> option Z),
   (forall a b c r, sharef a b c = Some r -> 0 <= r) ->
   forall sp value n draws,
   sp_wf sp -> 0 <= value -> sp_total_rewards sp + value < sp_max ->
-  (forall c, chargef (ss_charge (sp_set sp)) value = Some c -> 0 <= c <= value) ->
+  (forall c, chargef (ss_charge (sp_set sp)) value = Some c -> 0 <= c) ->
   let sel := sp_selection n draws (length (sp_pools sp)) in
   NoDup sel -> Forall (fun i => (i < length (sp_pools sp))%nat) sel ->
   sp_distribute_randn chargef sharef sp value n draws <> SpPanic /\
@@ -97,13 +60,42 @@ Theorem C10_randn_exact_partial :
       else
         sp_reward sp <= sp_reward sp' /\ sp_set sp' = sp_set sp /\ sp_killed sp' = sp_killed sp /\
         (exists e, sp_cred (sp_pools sp) e (sp_pools sp') /\ forall j, ~ In j sel -> nth j e 0 = 0) /\
-        (sp_total_rewards sp' = sp_total_rewards sp + value \/
-         (sp_pools sp <> [] /\
-          sp_stake_sum (map (fun i => nth i (sp_pools sp) sp_dflt) sel) 0 = Some 0 /\
-          sp_total_rewards sp <= sp_total_rewards sp' < sp_total_rewards sp + value /\
-          sp_pools sp' = sp_pools sp)).
+        sp_total_rewards sp' = sp_total_rewards sp + value.
 Proof. exact sp_distribute_randn_spec. Qed.
-Print Assumptions C10_randn_exact_partial.
+Print Assumptions C10_randn_exact.
+
+Theorem C10_randn_exact_go :
+  forall sp value n draws,
+  sp_wf sp -> 0 <= value -> sp_total_rewards sp + value < sp_max ->
+  let sel := sp_selection n draws (length (sp_pools sp)) in
+  NoDup sel -> Forall (fun i => (i < length (sp_pools sp))%nat) sel ->
+  sp_distribute_randn sp_chargef_go sp_sharef_go sp value n draws <> SpPanic /\
+  forall sp', sp_distribute_randn sp_chargef_go sp_sharef_go sp value n draws = SpOk sp' ->
+    exists total, sp_stake sp = Some total /\
+      if (value =? 0) || sp_killed sp || (total <? ss_minstake (sp_set sp)) then sp' = sp
+      else
+        sp_reward sp <= sp_reward sp' /\ sp_set sp' = sp_set sp /\ sp_killed sp' = sp_killed sp /\
+        (exists e, sp_cred (sp_pools sp) e (sp_pools sp') /\ forall j, ~ In j sel -> nth j e 0 = 0) /\
+        sp_total_rewards sp' = sp_total_rewards sp + value.
+Proof. exact sp_distribute_randn_exact_go. Qed.
+Print Assumptions C10_randn_exact_go.
+
+(* regression witnesses of the two repaired defects: ratio 1 / value 2^53+3 now credits exactly
+   the value (all of it charge); a selected delegate without stake sends the remainder to the
+   provider *)
+Example C10_former_charge_wrap_now_exact :
+  match sp_distribute sp_chargef_go sp_sharef_go sp_witness_f10a 9007199254740995 with
+  | SpOk sp' => sp_reward sp' = 9007199254740995 /\ map dp_reward (sp_pools sp') = [0; 0]
+  | _ => False
+  end.
+Proof. exact sp_witness_f10a_run. Qed.
+
+Example C10_former_zero_stake_drop_now_exact :
+  match sp_distribute_randn sp_chargef_go sp_sharef_go sp_witness_zero_sel 1000 1 [0%nat] with
+  | SpOk sp' => sp_reward sp' = 1000 /\ map dp_reward (sp_pools sp') = [0; 0]
+  | _ => False
+  end.
+Proof. exact sp_witness_zero_sel_run. Qed.
 
 (* at most N pools are selected (rand.Perm(..)[:n] has n entries; n >= len selects all) *)
 Theorem C10_randn_at_most_n :
@@ -131,7 +123,7 @@ Theorem C10_share_proportional :
   (forall vl b s r, 0 < s -> sharef vl b s = Some r -> Z.abs (r * s - vl * b) <= eps * s) ->
   forall sp value sp' charge incs stake,
   sp_wf sp -> 0 < value -> sp_total_rewards sp + value < sp_max ->
-  (forall c, chargef (ss_charge (sp_set sp)) value = Some c -> 0 <= c <= value) ->
+  (forall c, chargef (ss_charge (sp_set sp)) value = Some c -> 0 <= c) ->
   sp_stake sp = Some stake ->
   sp_distribute_body chargef sharef sp value = SpOk (sp', charge, incs) -> sp_pools sp <> [] ->
   exists e, sp_cred (sp_pools sp) e (sp_pools sp') /\ sp_sum e = value - charge /\
